@@ -48,6 +48,8 @@ class _AnyApiClause(dict):
             return "h_retrieve.resolution_cases"
         if key.startswith("ObjectRetrieval.retrieve_object#"):
             return "h_retrieve.retrieve_cases"
+        if key.startswith("_introspect_class#"):
+            return "h_class.base_class_cases"
         if key.split("#")[0] in ("_eval", "_eval_new_ctx", "keep", "eval", "load") or "#frame:no_except_clause" in key:
             return "h_api.trace_clause"
         return dict.get(self, key, default)
